@@ -61,7 +61,9 @@ def _recv(fd, deadline=None):
 
 
 class Pristine(object):
-    def __init__(self, funcs):
+    def __init__(self, funcs, preload=None):
+        """`preload()` runs once in the server (imports of the code under test, so that the children do
+        not import it again each); it must not call into that code."""
         self.funcs = dict(funcs)
         self.calls = 0
         r1, w1 = os.pipe()      # caller -> server
@@ -85,6 +87,8 @@ class Pristine(object):
                             os.close(fd)
                         except OSError:
                             pass
+                if preload is not None:
+                    preload()
                 self._serve(r1, w2)
             except BaseException:  # noqa
                 pass
